@@ -4,6 +4,8 @@ CONSTANTS
   Vals = {1, 2, 3}
   Types = {"big", "small"}
   Variant = "intended"
+  MaxDepth = 2
+  Throws = {FALSE, TRUE}
   Depth = 40
 SPECIFICATION GSpec
 CONSTRAINT EmitSim
